@@ -4,6 +4,8 @@
   is represented by these facts, the compiler runs of the check validate them on samples).
 -/
 import WrapModel.Model.Pybind
+import WrapModel.Lemmas.ClosedLemmas
+import WrapModel.Props.C02
 
 namespace WrapModel.Props.C09
 open WrapModel WrapModel.Inst WrapModel.Pybind
@@ -44,6 +46,39 @@ theorem C09_class_reference (ns : List String) (orig : String) (insts : List Typ
   have := splitLast_append_singleton ("" :: ns) orig
   simp only [List.cons_append] at this
   simp [this]
+
+/-! ### "no unsubstituted template parameter" -/
+
+open WrapModel.Spec WrapModel.C02L in
+/-- the clause of C09 about template parameters, for the SPECIFICATION of instantiation: in the type that the capture-free
+    substitution yields NO parameter and no `This` occurs any more — neither as a whole unqualified name nor as the head of a
+    scope, at any depth of template arguments — for every type expression, provided every parameter has an instantiation,
+    `This` denotes a class, and the instantiation arguments (and that class) are themselves parameter-free (`closedInst`; a
+    concrete type spelled like a parameter is legal input and is exactly what the hypothesis excludes) -/
+theorem C09_no_parameter_left_spec (tns : List String) (insts : List Typename) (th : Option Typename) (t : CType)
+    (hins : ∀ i ∈ insts, closedInst tns i = true) (hthis : ∀ c, th = some c → closedInst tns c = true)
+    (hlen : tns.length ≤ insts.length) (hth : th.isSome = true) :
+    closedTy tns (substType tns insts th t) = true :=
+  subst_closed tns insts th hins hthis hlen hth t
+
+open WrapModel.Spec WrapModel.C02L in
+/-- … and for the CODE's `instantiate_type`, wherever it is proved to be that substitution (the guard of
+    `C02_inst_eq_subst_partial`): what it returns contains no parameter any more -/
+theorem C09_no_parameter_left_partial (tns : List String) (insts : List Typename) (cpp icls : Option Typename) (t t' : CType)
+    (hp : ∀ t ∈ tns, noColon t = true) (hlen : insts.length = tns.length)
+    (hsafe : safeTy tns insts cpp icls t = true)
+    (hins : ∀ i ∈ insts, closedInst tns i = true) (hthis : ∀ c, thisOf icls cpp = some c → closedInst tns c = true)
+    (hth : (thisOf icls cpp).isSome = true)
+    (h : instType tns insts cpp icls t = .ok t') : closedTy tns t' = true := by
+  rw [WrapModel.Props.C02.C02_inst_eq_subst_partial tns insts cpp icls t hp hlen hsafe] at h
+  cases h
+  exact subst_closed tns insts _ hins hthis (by omega) hth t
+
+open WrapModel.Spec WrapModel.C02L in
+/-- non-vacuity: `std::map<KEY, std::vector<T>>` with KEY := gtsam::Key, T := double in class `ns::Graph` -/
+example : closedTy ["KEY", "T"] (substType ["KEY", "T"] [⟨["gtsam"], "Key", []⟩, ⟨[], "double", []⟩] (some ⟨["ns"], "Graph", []⟩)
+    (.templ ["std"] "map" [.simple ⟨[], "KEY", []⟩ Quals.plain false, .templ ["std"] "vector" [.simple ⟨[], "T", []⟩ Quals.plain false] Quals.plain] Quals.plain)) = true := by
+  decide
 
 /-- `#include <x>` lines are re-emitted with quotes -/
 example : includeLine "gtsam/base/Matrix.h" = "#include \"gtsam/base/Matrix.h\"\n" := by decide
